@@ -74,7 +74,7 @@ func setup(repo string, tier string) (*Verifier, error) {
 		return nil, err
 	}
 	v.tmpdir = tmp
-	v.timeoutMs = 30000
+	v.timeoutMs = 45000
 	if tier == "thorough" {
 		v.timeoutMs = 120000
 		v.agree = true
